@@ -61,21 +61,28 @@ example : commentBody [32, 97, 45, 98, 10, 62, 45, 32, 99] := by
     rcases h with rfl | rfl | rfl | rfl | rfl | rfl | rfl | rfl | rfl <;> simp_all
   rcases this with rfl | rfl <;> decide
 
-/-- Processing instructions before the root element: in front of `<?body?>` (body without `?` and
-    `<`, any other bytes incl. line breaks — e.g. the `<?xml version=… encoding=…?>` declaration, also
-    spread over several lines) one round of `parse`'s loop over processing instructions steps
-    exactly over it, keeps the line bookkeeping right, skips the white space/comments behind it and
-    goes on with the next round (another processing instruction, or the root element follows) —
-    at any position of any text and for any fuel. -/
+/-- Processing instructions before the root element: in front of `<?body?>` — body without `<`
+    and without `?>`, any other bytes incl. lone `?` and line breaks, e.g. the
+    `<?xml version=… encoding=…?>` declaration, also spread over several lines — one round of
+    `parse`'s loop over processing instructions steps exactly over it, keeps the line bookkeeping
+    right, skips the white space/comments behind it and goes on with the next round (another
+    processing instruction, or the root element follows) — at any position of any text, any fuel. -/
 theorem pi_before_root_partial (t : Bytes) (p : Pos) (body rest : Bytes)
-    (h : t.drop p.pos = [60, 63] ++ (body ++ ([63, 62] ++ rest))) (hb : ∀ b ∈ body, b ≠ 63 ∧ b ≠ 60) :
+    (h : t.drop p.pos = [60, 63] ++ (body ++ ([63, 62] ++ rest))) (hb : piBody body) :
     ∃ q : Pos, q.pos = p.pos + 2 + body.length + 2 ∧ (PosOK t p → PosOK t q) ∧
       ∀ f, piLoop t (f + 1) p = (skipSpace t q).bind fun q2 => piLoop t f q2.1 :=
   piLoop_step t p body rest h hb
 
+/-- non-vacuity: `xml a="1"?\n b` is such a body -/
+example : piBody [120, 109, 108, 32, 97, 61, 34, 49, 34, 63, 10, 32, 98] := by
+  intro i hi
+  simp at hi
+  have h : i = 0 ∨ i = 1 ∨ i = 2 ∨ i = 3 ∨ i = 4 ∨ i = 5 ∨ i = 6 ∨ i = 7 ∨ i = 8 ∨ i = 9 ∨ i = 10 ∨ i = 11 ∨ i = 12 := by omega
+  rcases h with rfl | rfl | rfl | rfl | rfl | rfl | rfl | rfl | rfl | rfl | rfl | rfl | rfl <;> decide
+
 /- OPEN: pi_before_root at full strength — the same for every processing instruction body that
-   does not contain `?>` (bodies with a lone `?` or with `<`).  Not proved; not even true of the
-   code in one corner: behind a `?` or a line break inside the instruction `parse` calls skipSpace,
+   does not contain `?>`, i.e. also bodies containing `<`.  Not proved; not even true of the code
+   in one corner: behind a `?` or a line break inside the instruction `parse` calls skipSpace,
    which also skips a comment, so `<?x ?<!-- ?> -->` is not ended by its first `?>` (the
    correspondence run exercises such inputs against the real code; the model mirrors it). -/
 
